@@ -278,6 +278,7 @@ pub fn run(a: &Args) -> i32 {
         }
     }
     near_key_arrangements("C11", &sink, &mut rep);
+    generators_built_in_pools(&sink, &mut rep);
     rep.mandatory = vec!["direct_table_queries".into(), "walk_attack_queries".into(), "generator_draws_checked".into(), "near_key_bits_covered".into()];
     if a.tier == "thorough" {
         if let Err(e) = crate::draws::run_draws("C11", 4, &mut rep, &sink) {
@@ -701,4 +702,55 @@ pub fn near_key_arrangements(owner: &str, sink: &Sink, rep: &mut Report) {
     rep.add("near_key_move_list_queries", move_queries);
     rep.add("near_key_bits_covered_for_move_lists_(both_colours)", covered_moves);
     rep.transitions += move_queries;
+}
+
+/// The lookup tables are built when a generator is constructed: generators constructed on threads
+/// of rayon pools of every size 1..24 (and 32, 33, 48, 64, 65) answer, for every square, the rook /
+/// bishop / queen queries with no blockers, with every relevant blocker square occupied, and with
+/// two fixed patterns; compared with the ray walk.
+fn generators_built_in_pools(sink: &Sink, rep: &mut Report) {
+    let mut asked = 0u64;
+    let mut sizes: Vec<usize> = (1..=24).collect();
+    sizes.extend([32usize, 33, 48, 64, 65]);
+    for size in sizes.iter() {
+        let pool = rayon::ThreadPoolBuilder::new().num_threads(*size).build().unwrap();
+        let mut g = match guarded(|| pool.install(MoveGenerator::new)) {
+            Ok(g) => g,
+            Err(e) => {
+                sink.push(Violation { prop: "C11".into(), class: "generator-construction-panics".into(), seed: format!("rayon pool of {} threads", size), path: vec![], detail: e, extra: json!({"kind": "c11-pool", "pool": size}) });
+                continue;
+            }
+        };
+        for sq in 0..64u8 {
+            let rr = ray_squares(sq, &ROOK_DIRS);
+            let br = ray_squares(sq, &BISHOP_DIRS);
+            let all: u64 = rr.iter().chain(br.iter()).flatten().fold(0u64, |m, s| m | 1u64 << s);
+            for occ in [0u64, all, all & 0x55AA55AA55AA55AA, all & 0x0F0F0F0FF0F0F0F0] {
+                for (piece, want) in [(Piece::Rook, expected_slider(&rr, occ)), (Piece::Bishop, expected_slider(&br, occ)), (Piece::Queen, expected_slider(&rr, occ) | expected_slider(&br, occ))] {
+                    let mut b = Board::new();
+                    b.put(bb(sq), piece, Color::White).unwrap();
+                    let mut x = occ;
+                    while x != 0 {
+                        let s = x.trailing_zeros() as u8;
+                        x &= x - 1;
+                        b.put(bb(s), Piece::Knight, Color::Black).unwrap();
+                    }
+                    asked += 1;
+                    match guarded(|| g.get_attack_targets(&b, Color::White).0) {
+                        Ok(got) if got == want => {}
+                        other => {
+                            sink.push(Violation { prop: "C11".into(), class: "generator-built-in-a-pool-answers-wrongly".into(), seed: format!("generator constructed inside a rayon pool of {} threads: white {:?} on {} with blockers {:#018x}", size, piece, sq_name(sq), occ), path: vec![], detail: format!("engine {:?}, ray walk {:#018x}", other.map(|v| format!("{:#018x}", v)), want), extra: json!({"kind": "c11-pool", "pool": size}) });
+                        }
+                    }
+                }
+            }
+        }
+        if g.cache_entry_count() > 0 {
+            g = MoveGenerator::new();
+        }
+        let _ = &g;
+    }
+    rep.add("pool_sizes_in_which_a_generator_was_built", sizes.len() as u64);
+    rep.add("queries_to_generators_built_in_pools", asked);
+    rep.transitions += asked;
 }
